@@ -162,7 +162,15 @@ theorem lock_refines {c : CW} {s : WS} (hi : Inv c) (hr : Rel c s) : StepRefines
           exact hr.buffers
       marked := hr.marked
       markedLt := hr.markedLt
-      markedNodup := hr.markedNodup }
+      markedNodup := hr.markedNodup
+      markedOld := by
+        intro o ho h hh
+        show h ∉ createHandles (if w.lockDepth = 0 then _ else _)
+        by_cases hd : w.lockDepth = 0
+        · simp only [hd, if_true]
+          rw [createHandles_pad]; exact hr.markedOld o ho h hh
+        · simp only [hd, if_false]
+          exact hr.markedOld o ho h hh }
 
 /-! ## inner `unlock` (depth ≥ 2): only the counter moves -/
 
@@ -197,7 +205,7 @@ theorem unlock_inner_refines {c : CW} {s : WS} (hi : Inv c) (hr : Rel c s) (hd :
     { len := hr.len, ents := hr.ents, deps := hr.deps
       lockDepth := by show s.lockDepth - 1 = w.lockDepth - 1; rw [hr.lockDepth]
       nthreads := hr.nthreads, buffers := hr.buffers, marked := hr.marked, markedLt := hr.markedLt,
-      markedNodup := hr.markedNodup }
+      markedNodup := hr.markedNodup, markedOld := hr.markedOld }
   · simp [isUnlockOp, cbsAgreeNet]
 
 /-! ## one command pushed on each side -/
@@ -208,7 +216,7 @@ theorem pushed_refines {c : CW} {s : WS} (hi : Inv c) (hr : Rel c s) (hl : 0 < c
     Inv ⟨{ c.w.pushCmd t cmd with temps := tmp }, c.issued⟩ ∧
     Rel ⟨{ c.w.pushCmd t cmd with temps := tmp }, c.issued⟩ (s.push t sc) := by
   have hi1 := inv_push hi t cmd hcr hk hok hl
-  have hr1 := rel_push hr t cmd sc hrel
+  have hr1 := rel_push hr t cmd sc hrel (fun e he => by rw [hcr] at he; cases he)
   exact ⟨inv_frame (c := ⟨c.w.pushCmd t cmd, c.issued⟩) hi1 (frameEq_temps _ tmp) (PoolExt.refl _)
       (poolInv_temps hi1.pool tmp),
     rel_frame (c := ⟨c.w.pushCmd t cmd, c.issued⟩) hi1 hr1 (frameEq_temps _ tmp) (PoolExt.refl _)⟩
@@ -234,7 +242,7 @@ theorem destroyNow_locked_refines {c : CW} {s : WS} (hi : Inv c) (hr : Rel c s) 
     simp only [Op.mapRef, WS.step, hsl, if_true]
   unfold StepRefines
   rw [hstep, hs]
-  exact ⟨inv_push hi t (.destroyNow e) rfl hk trivial hl', rel_push hr t (.destroyNow e) (.destroyNow (ordOf iss e)) rfl,
+  exact ⟨inv_push hi t (.destroyNow e) rfl hk trivial hl', rel_push hr t (.destroyNow e) (.destroyNow (ordOf iss e)) rfl (fun _ h => nomatch h),
     agree_ok_nil _ _ rfl⟩
 
 theorem destroy_locked_refines {c : CW} {s : WS} (hi : Inv c) (hr : Rel c s) (hl : c.w.isLocked = true)
@@ -249,7 +257,7 @@ theorem destroy_locked_refines {c : CW} {s : WS} (hi : Inv c) (hr : Rel c s) (hl
     simp only [Op.mapRef, WS.step, hsl, if_true]
   unfold StepRefines
   rw [hstep, hs]
-  exact ⟨inv_push hi t (.destroy e) rfl hk trivial hl', rel_push hr t (.destroy e) (.destroy (ordOf iss e)) rfl,
+  exact ⟨inv_push hi t (.destroy e) rfl hk trivial hl', rel_push hr t (.destroy e) (.destroy (ordOf iss e)) rfl (fun _ h => nomatch h),
     agree_ok_nil _ _ rfl⟩
 
 theorem remove_locked_refines {c : CW} {s : WS} (hi : Inv c) (hr : Rel c s) (hl : c.w.isLocked = true)
@@ -266,7 +274,7 @@ theorem remove_locked_refines {c : CW} {s : WS} (hi : Inv c) (hr : Rel c s) (hl 
   unfold StepRefines
   rw [hstep, hs]
   exact ⟨inv_push hi t (.remove e comp) rfl hk trivial hl',
-    rel_push hr t (.remove e comp) (.remove (ordOf iss e) comp) ⟨rfl, rfl⟩, agree_ok_nil _ _ rfl⟩
+    rel_push hr t (.remove e comp) (.remove (ordOf iss e) comp) ⟨rfl, rfl⟩ (fun _ h => nomatch h), agree_ok_nil _ _ rfl⟩
 
 /-- the value a locked `assign` records is the value the spec records -/
 theorem stored_eq (comp : CompId) (v : Option Nat) : storedOf info comp v = storedVal info comp v := rfl
@@ -371,7 +379,7 @@ theorem removeFold_locked (iss : List Handle) (t : Nat) (e : Handle) :
     simp only [List.foldl_cons, hw]
     have hl' : 0 < w.lockDepth := (isLocked_iff w).mp hl
     exact ih _ _ (inv_push (c := ⟨w, iss⟩) hi t (.remove e x) rfl hk trivial hl')
-      (rel_push (c := ⟨w, iss⟩) hr t (.remove e x) (.remove (ordOf iss e) x) ⟨rfl, rfl⟩) hl
+      (rel_push (c := ⟨w, iss⟩) hr t (.remove e x) (.remove (ordOf iss e) x) ⟨rfl, rfl⟩ (fun _ h => nomatch h)) hl
       (known_of_worldId (w := w) rfl hk)
 
 theorem build_locked_refines {c : CW} {s : WS} (hi : Inv c) (hr : Rel c s) (hl : c.w.isLocked = true)
